@@ -312,12 +312,28 @@ Loop:
 				return zerr.UnexpectedParamWildcard()
 			}
 		default:
+			// a mandatory parameter that the caller did not supply
+			if idx >= len(values) {
+				return zerr.LeastParamsError(leastParamCount(typeStr))
+			}
 			if err := validateOneParam(values[idx], t); err != nil {
 				return err
 			}
 		}
 	}
 	return nil
+}
+
+// leastParamCount - number of parameters a ValidateLeastParams pattern list demands at least:
+// every plain type and every "type+" counts one, "type*" and "type?" count none
+func leastParamCount(typeStr []string) int {
+	count := 0
+	for _, t := range typeStr {
+		if !strings.HasSuffix(t, "*") && !strings.HasSuffix(t, "?") {
+			count += 1
+		}
+	}
+	return count
 }
 
 // ValidateAllParams doesn't limit the length of input values; instead, it requires all the parameters
@@ -374,10 +390,8 @@ func validateOneParam(v r.Element, typeStr string) error {
 
 	// if typeStr starts with "govalue" then check if v is *GoValue and tag is equal "<tag>" after "golang:"
 	if strings.HasPrefix(typeStr, "golang:") {
-		if _, ok := v.(*GoValue); !ok {
-			valid = false
-		}
-		if v.(*GoValue).GetTag() != strings.TrimPrefix(typeStr, "golang:") {
+		gv, ok := v.(*GoValue)
+		if !ok || gv.GetTag() != strings.TrimPrefix(typeStr, "golang:") {
 			valid = false
 		}
 	}
